@@ -74,9 +74,15 @@ def programs(tier, seed):
     k = seed
     for e in IDX:
         for arity in (2, 3):
-            for pos in range(arity):
+            for role in range(arity):
                 k += 1
-                if tier != 'thorough' and (k % 2):
+                perms = list(itertools.permutations(range(arity)))
+                order = list(perms[k % len(perms)])
+                # role of the argument under test in the documented formula: 0 = fastest (left operand of +), arity-1 = slowest (right
+                # operand of the generated *), in between = inside a parenthesised sum.  quick: every operator class in every role at
+                # arity 3 and in the slowest role at arity 2 (the roles differ in which generated operator the argument sits under)
+                pos = order[role]
+                if tier != 'thorough' and not (arity == 3 or role == arity - 1):
                     continue
                 argexprs = []
                 for q in range(arity):
@@ -84,8 +90,6 @@ def programs(tier, seed):
                         argexprs.append(e.format(i='i%d' % q, j='i%d' % ((q + 1) % arity)))
                     else:
                         argexprs.append(IDX[(k + q) % 4].format(i='i%d' % q, j='i%d' % ((q + 1) % arity)))
-                perms = list(itertools.permutations(range(arity)))
-                order = list(perms[k % len(perms)])
                 dims = [DIMS[(k + q) % len(DIMS)].format(k=q, lit=lits[q]) for q in range(arity)]
                 progs.append(make('d%03d' % n, arity, order, argexprs, dims, typedef=(k % 3 == 0), tier=tier)); n += 1
     return progs
